@@ -203,10 +203,14 @@ func (t *Tally) AddObs(o *Obs) {
 	}
 }
 
-func (o *Obs) Class(name string)        { o.classes = append(o.classes, name) }
-func (o *Obs) ClassIf(c bool, n string) { if c { o.classes = append(o.classes, n) } }
-func (o *Obs) Known(id string)          { o.known = append(o.known, id) }
-func (o *Obs) NonTrivial()              { o.NT = true }
+func (o *Obs) Class(name string) { o.classes = append(o.classes, name) }
+func (o *Obs) ClassIf(c bool, n string) {
+	if c {
+		o.classes = append(o.classes, n)
+	}
+}
+func (o *Obs) Known(id string) { o.known = append(o.known, id) }
+func (o *Obs) NonTrivial()     { o.NT = true }
 
 const maxSampleBytes = 3000
 
